@@ -32,7 +32,7 @@ EventsOK ==
     /\ \A s \in subs :
          LET got == Cur.evs[s] IN
          /\ Len(got) = Len(NewEvents)
-         /\ \A j \in 1..Len(got) : EvOf(got[j]) = NewEvents[j]
+         /\ \A j \in 1..Len(got) : EvOf(got[j]) = [d |-> NewEvents[j].d, k |-> NewEvents[j].k]
 
 TReset == /\ Is("reset") /\ Step
           /\ db' = [d \in Docs |-> Absent] /\ cver' = 0 /\ lastw' = [d \in Docs |-> 0]
@@ -57,11 +57,15 @@ TIdsI    == Is("ids") /\ Cur.t = 0 /\ Step /\ IIds(ToSet(Cur.names)) /\ EventsOK
 TGetE    == Is("get") /\ Cur.t # 0 /\ Step /\ TGet(Cur.t, Cur.d, Cur.val) /\ EventsOK
 TGetI    == Is("get") /\ Cur.t = 0 /\ Step /\ IGet(Cur.d, Cur.val) /\ EventsOK
 TQueryI  == Is("query")  /\ Cur.t = 0 /\ Step /\ IQuery(RowSet(Cur.rows)) /\ EventsOK
+\* last line of a trace that ran with a GraphQL subscription (filter v >= Cur.v) and a consumer that read only now:
+\* the results it received, in order, as <<name, v>>
+TGql     == /\ Is("gql") /\ Step /\ UNCHANGED vars
+            /\ CheckEvents => [j \in 1..Len(Cur.rows) |-> <<Cur.rows[j][1], Cur.rows[j][2]>>] = GqlResults(published, Cur.v)
 TDone    == l > Len(Trace) /\ UNCHANGED tvars
 
 TraceInit == Init /\ l = 1
 TraceNext == TReset \/ TBegin \/ TDiscard \/ TCommit \/ TCreateE \/ TUpdateE \/ TDeleteE \/ TQueryE
-             \/ TCreateI \/ TUpdateI \/ TDeleteI \/ TQueryI \/ TIdsE \/ TIdsI \/ TGetE \/ TGetI \/ TSub \/ TUnsub \/ TTouchE \/ TTouchI \/ TDone
+             \/ TCreateI \/ TUpdateI \/ TDeleteI \/ TQueryI \/ TIdsE \/ TIdsI \/ TGetE \/ TGetI \/ TSub \/ TUnsub \/ TTouchE \/ TTouchI \/ TGql \/ TDone
 TraceSpec == TraceInit /\ [][TraceNext]_tvars
 \* bounds of the generator do not apply to recorded traces
 TraceView == <<db, cver, lastw, tx, published, subs, l>>
